@@ -14,4 +14,4 @@ mod tests;
 
 #[cfg(kani)]
 #[path = "/verif/units/kani/bitbox_wal.rs"]
-mod verif_kani;
+pub(crate) mod verif_kani;
